@@ -105,8 +105,8 @@ Definition t_barrel ws x bit_in dir sd :=
 Definition t_bfu ws w s e nv tr :=
   run_tab ws (fun env => one (bitfield_update (eval env w) s e (eval env nv) tr)).
 
-Definition t_bfui ws w s e v :=
-  run_tab ws (fun env => one (bitfield_update_int (eval env w) s e v)).
+Definition t_bfui ws w s e v tr :=
+  run_tab ws (fun env => one (bitfield_update_int (eval env w) s e v tr)).
 
 Definition t_bfus ws w (ups : list ((option Z * option Z) * src)) tr :=
   run_tab ws (fun env =>
